@@ -121,7 +121,9 @@ impl Mutex {
                 }
 
                 if let Some(operation) = thread.operation.as_ref() {
-                    if operation.object() == self.state.erase() {
+                    // A thread that is about to *try* to lock keeps running:
+                    // its attempt will fail.
+                    if operation.object() == self.state.erase() && operation.is_blocking() {
                         let location = operation.location();
                         trace!(state = ?self.state, thread = ?id,
                             "Mutex::post_acquire");
